@@ -22,6 +22,7 @@ C02_Pool == {
   <<"SP", "SP", "SP", "HY", "SP", "a">>,               \* 3 spaces: not a multiple of the unit 2
   <<"SP", "TAB", "HY", "SP", "a">>,                    \* mixes tabs and spaces
   <<"SH", "SP", "a">>,                                 \* heading root
+  <<"SP", "SP", "SH", "a">>,                           \* an indented '#': not a heading, and no bullet after the indentation
   <<"SH", "SH", "SP">>,                                \* heading with empty text
   <<"WS", "HY", "SP", "a">>                            \* indented with another Unicode white space (grey: no verdict; the builds must still agree)
 }
